@@ -36,6 +36,7 @@ import time
 ENV = "PYTME_VERIF_FAULTS"
 _installed = False
 _state = threading.local()
+_pending = threading.local()      # callback fault point handed from PeakCaller.__call__ down to call_peaks
 _proc = {"tile": None, "in_scan": 0, "subset_n": 0, "post_n": 0, "init_n": 0}
 
 
@@ -355,15 +356,39 @@ def install():
         NumpyFFTWBackend.rigid_transform = rigid_transform
 
     # analyzers
+    # peak callers: the fault of the callback phase is raised from inside `call_peaks` (the part of the callback a user
+    # subclass writes), i.e. below whatever `PeakCaller.__call__` wraps around it; once per rotation, at the first batch
     def wrap_call(o):
         @functools.wraps(o)
         def __call__(self, scores, rotation_matrix, *a, **k):
             g = _rot_index(rotation_matrix)
+            if g >= 0 and hasattr(type(self), "call_peaks"):
+                _pending.p = ("callback", _cur_tile(), g)
+                try:
+                    r = o(self, scores, rotation_matrix, *a, **k)
+                except BaseException:
+                    _pending.p = None
+                    raise
+                p, _pending.p = getattr(_pending, "p", None), None
+                if p is not None:          # call_peaks was not reached (no batch): the point is still passed
+                    point(*p)
+                return r
             if g >= 0:
                 point("callback", _cur_tile(), g)
             return o(self, scores, rotation_matrix, *a, **k)
         __call__._pv = True
         return __call__
+
+    def wrap_peaks(o):
+        @functools.wraps(o)
+        def call_peaks(self, *a, **k):
+            p = getattr(_pending, "p", None)
+            if p is not None:
+                _pending.p = None
+                point(*p)
+            return o(self, *a, **k)
+        call_peaks._pv = True
+        return call_peaks
 
     def wrap_post(o):
         @functools.wraps(o)
@@ -407,6 +432,9 @@ def install():
         d = vars(cls)
         if "__call__" in d and not getattr(d["__call__"], "_pv", False):
             setattr(cls, "__call__", wrap_call(d["__call__"]))
+        if "call_peaks" in d and not getattr(d["call_peaks"], "_pv", False) \
+                and not getattr(d["call_peaks"], "__isabstractmethod__", False):
+            setattr(cls, "call_peaks", wrap_peaks(d["call_peaks"]))
         if "_postprocess" in d and not getattr(d["_postprocess"], "_pv", False):
             setattr(cls, "_postprocess", wrap_post(d["_postprocess"]))
         if "__init__" in d and cname in ("PeakCaller", "MaxScoreOverRotations", "MemmapHandler") \
